@@ -4,7 +4,7 @@ The route table is read from the live APIRouters of openpectus.aggregator.router
 endpoint function, FastAPI's resolved dependencies).  Three obligations:
 
  * target_routes  -- every route whose path has a unit / engine / run parameter.  The real endpoint function is called
-   directly with the user's role set and the target's required-role set built from solver membership bits over a 3-role (thorough: 4-role)
+   directly with the user's role set and the target's required-role set built from solver membership bits over a 2-role (thorough: 4-role)
    universe, a real `Aggregator` (recording fake dispatcher) holding the unit, in-memory fake repositories holding the
    run.  A user who lacks every required role must be refused (HTTPException 401/403, or 404 before any sub-resource is read) with no rpc sent and no unit
    state changed; a target that requires no role must not be refused with 401/403.  A route that has such a parameter
@@ -293,6 +293,15 @@ def _bits(sym, prefix, n):
     return [ROLES[j] for j in range(n) if (True if sym.bool(f"{prefix}{j}") else False)]
 
 
+def _pick(sym, name, options):
+    """one of the shard's routes: fixed if the shard has a single one, else a solver selector (one path subtree per option)"""
+    return options[0] if len(options) == 1 else sym.choice(name, options)
+
+
+def _chunks(items, size):
+    return [items[i:i + size] for i in range(0, len(items), size)]
+
+
 def _no_task(coro, **_k):
     coro.close()
 
@@ -302,9 +311,9 @@ def _no_task(coro, **_k):
 # ---------------------------------------------------------------------------------------------------
 def harness_target(sym):
     import asyncio
-    entry = route_table()[sym.shard["route"]]
+    entry = route_table()[_pick(sym, "route", sym.shard["routes"])]
     key = entry["key"]
-    nroles = sym.shard.get("roles", 3)
+    nroles = sym.shard.get("roles", 2)
     required = _bits(sym, "target_requires_", nroles)
     has_roles_param = entry["roles_param"] is not None
     user_roles = _bits(sym, "user_has_", nroles) if has_roles_param else []
@@ -344,12 +353,13 @@ def harness_target(sym):
 
 def harness_listing(sym):
     import asyncio
-    entry = route_table()[sym.shard["route"]]
+    case = _pick(sym, "case", sym.shard["cases"])
+    entry = route_table()[case[0]]
     key = entry["key"]
     nroles = sym.shard.get("roles", 2)
     user_roles = _bits(sym, "user_has_", nroles)
     reqs = [_bits(sym, f"target{t}_requires_", nroles) for t in range(2)]
-    targets = sym.shard["targets"]
+    targets = case[1]
     with sym.concrete():
         unit_roles = {t: reqs[i] for i, t in enumerate(targets) if t.startswith("E")}
         run_roles = {t: reqs[i] for i, t in enumerate(targets) if t.startswith("R")}
@@ -376,9 +386,9 @@ def harness_listing(sym):
 def harness_lsp(sym):
     import inspect
     import openpectus.aggregator.deps as agg_deps
-    name = sym.shard["fn"]
+    name = _pick(sym, "fn", sym.shard["fns"])
     fn = lsp_entry_points()[name]
-    required = _bits(sym, "target_requires_", sym.shard.get("roles", 3))
+    required = _bits(sym, "target_requires_", sym.shard.get("roles", 2))
     with sym.concrete():
         w = _make_world(sym, {UNIT: required}, {})
         kwargs = {}
@@ -403,25 +413,31 @@ def harness_lsp(sym):
 
 
 def _target_shards(tier):
-    return [{"route": k, "roles": 3 if tier == "quick" else 4} for k, e in sorted(route_table().items()) if e["targets"]]
+    # several routes per shard (the route is then a solver selector): a worker process pays the import of the whole
+    # aggregator once per shard, which costs more than exploring one route
+    routes = [k for k, e in sorted(route_table().items()) if e["targets"]]
+    if tier == "quick":
+        return [{"routes": c, "roles": 2} for c in _chunks(routes, 4)]
+    return [{"routes": c, "roles": 4} for c in _chunks(routes, 2)]
 
 
 def _listing_shards(tier):
-    out = []
-    nroles = 2 if tier == "quick" else 3
+    cases = []
     for k, e in sorted(route_table().items()):
         if e["targets"] or e["roles_param"] is None:
             continue
         if e["module"].__name__.endswith("recent_runs"):
-            out.append({"route": k, "targets": [RUN, RUN2], "roles": nroles})
+            cases.append([k, [RUN, RUN2]])
         else:
-            out.append({"route": k, "targets": [UNIT, UNIT2], "roles": nroles})
-            out.append({"route": k, "targets": [UNIT, OFFLINE_UNIT], "roles": nroles})
-    return out
+            cases.append([k, [UNIT, UNIT2]])
+            cases.append([k, [UNIT, OFFLINE_UNIT]])
+    if tier == "quick":
+        return [{"cases": c, "roles": 2} for c in _chunks(cases, 2)]
+    return [{"cases": [c], "roles": 3} for c in cases]
 
 
 def _lsp_shards(tier):
-    return [{"fn": n, "roles": 3 if tier == "quick" else 4} for n in sorted(lsp_entry_points())]
+    return [{"fns": sorted(lsp_entry_points()), "roles": 2 if tier == "quick" else 4}]
 
 
 _COMMON = ["real Aggregator/FromFrontend over a fake dispatcher (records rpc_call, answers success) and a fake FrontendPublisher; asyncio.create_task is a no-op",
@@ -438,7 +454,7 @@ OBLIGATIONS = [
         encoded=["openpectus.aggregator.routers.process_unit", "openpectus.aggregator.routers.recent_runs",
                  "openpectus.aggregator.routers.lsp:get_pcode_tm_grammar", "openpectus.aggregator.routers.auth:has_access"],
         symbolic="one membership bit per role for the user's roles and one per role for the target's required roles",
-        bounds={"quick": "every live route with a unit/engine/run path parameter x all 64 role assignments of a 3-role universe",
+        bounds={"quick": "every live route with a unit/engine/run path parameter x all 16 role assignments of a 2-role universe",
                 "thorough": "same routes x all 256 role assignments of a 4-role universe"},
         assumptions=_COMMON),
     Obligation(
@@ -457,7 +473,7 @@ OBLIGATIONS = [
         encoded=["openpectus.lsp.lsp_analysis:fetch_uod_info", "openpectus.lsp.lsp_analysis:fetch_process_value",
                  "openpectus.lsp.lsp_analysis:fetch_simulated_tags"],
         symbolic="one membership bit per role for the unit's required roles",
-        bounds={"quick": "every function of lsp_analysis that takes an engine_id and reads the aggregator, all required-role sets over 3 roles",
+        bounds={"quick": "every function of lsp_analysis that takes an engine_id and reads the aggregator, all required-role sets over 2 roles",
                 "thorough": "same over 4 roles"},
         assumptions=_COMMON + ["the websocket endpoint /lsp/websocket itself carries no engine id; lint/hover/completion reach unit data only through these functions"]),
 ]
@@ -465,6 +481,6 @@ OBLIGATIONS = [
 MANIFEST = {
     "level": "model_checking",
     "text": "Route table read from the live APIRouters at run time; every endpoint function with a unit/engine/run parameter, every listing endpoint and every aggregator-reading entry point of the LSP analysis module is executed symbolically (CrossHair/z3) with the user's and the target's role sets built from solver membership bits over a small role universe; exhaustive over all role assignments for every route.",
-    "note": "Trusted: CrossHair bool model, z3, FastAPI's resolved dependency table, the in-memory repository fakes and the recording dispatcher. Endpoint functions are called directly (FastAPI's own request parsing/JWT decoding is outside the claim). Role universe of 3 (quick) / 4 (thorough) roles, for listings 2 / 3; one target per request (two for listings).",
+    "note": "Trusted: CrossHair bool model, z3, FastAPI's resolved dependency table, the in-memory repository fakes and the recording dispatcher. Endpoint functions are called directly (FastAPI's own request parsing/JWT decoding is outside the claim). Role universe of 2 (quick) / 4 (thorough) roles, for listings 2 / 3; one target per request (two for listings).",
     "technique": "symbolic execution of the real endpoint functions (CrossHair + z3) over a route table extracted at run time, exhaustive over role bits, counterexample replay",
 }
